@@ -490,6 +490,96 @@ fn print_pgram(names: &[&str], bnf: &Bnf, start_param: u64) -> String {
     s
 }
 
+/// Generated parametric family: one callee `x` reached with two *different* parameter values from the same
+/// Earley set (side by side in two alternatives, in sequence, or behind an ambiguous prefix), the callee's
+/// alternatives guarded by conditions on the parameter (and one level deeper through `y::_`), plus
+/// left-recursive counting — the shapes where an engine that merges items of one rule across parameter
+/// values over- or under-accepts.
+pub fn generated_parametric() -> Vec<PGram> {
+    // printer: nts[0] is the plain rule `start`, the others are parametric rules `name::_`
+    fn print(names: &[&str], bnf: &Bnf) -> String {
+        let mut s = String::new();
+        for (i, alts) in bnf.nts.iter().enumerate() {
+            for (ai, a) in alts.iter().enumerate() {
+                let mut rhs = String::new();
+                for sym in a.syms.iter() {
+                    match sym {
+                        Sym::T(bs) => rhs.push_str(&format!("\"{}\" ", bs[0] as char)),
+                        Sym::Tok(_) => {}
+                        Sym::N(n, e) => rhs.push_str(&format!("{}::{} ", names[*n], e.lark())),
+                    }
+                }
+                if rhs.is_empty() {
+                    rhs = "\"\" ".to_string();
+                }
+                let cond = if a.cond == Cond::True { String::new() } else { format!("%if {}", a.cond.lark()) };
+                if ai == 0 {
+                    s.push_str(&format!("{}{} : {}{}\n", names[i], if i == 0 { "" } else { "::_" }, rhs, cond));
+                } else {
+                    s.push_str(&format!("   | {}{}\n", rhs, cond));
+                }
+            }
+        }
+        s
+    }
+    let mut out = vec![];
+    let c = |v: u64| PExpr::Const(v);
+    let x = |e: PExpr| Sym::N(1, e);
+    let tt = |b: u8| Sym::T(vec![b]);
+    // callee alternatives menu (the last one goes one level deeper through y::_)
+    let menu: Vec<Alt> = vec![
+        Alt { cond: Cond::BitSet(0), syms: vec![tt(b'b')] },
+        Alt { cond: Cond::BitSet(1), syms: vec![tt(b'c')] },
+        Alt { cond: Cond::Cmp(Cmp::Eq, 0, 64, 3), syms: vec![tt(b'd')] },
+        Alt { cond: Cond::BitSet(1), syms: vec![] },
+        Alt { cond: Cond::True, syms: vec![tt(b'a'), Sym::N(2, PExpr::SelfRef)] },
+    ];
+    let y_alts = vec![Alt { cond: Cond::BitSet(0), syms: vec![tt(b'e')] }, Alt { cond: Cond::BitClear(0), syms: vec![tt(b'f')] }];
+    let mut subsets: Vec<Vec<usize>> = vec![];
+    for i in 0..menu.len() {
+        for j in (i + 1)..menu.len() {
+            subsets.push(vec![i, j]);
+            for k in (j + 1)..menu.len() {
+                subsets.push(vec![i, j, k]);
+            }
+        }
+    }
+    let mut n = 0;
+    for (c1, c2) in [(1u64, 2u64), (1, 3), (2, 3)] {
+        for caller in 0..3 {
+            let top: Vec<Alt> = match caller {
+                0 => vec![Alt { cond: Cond::True, syms: vec![x(c(c1)), tt(b'p')] }, Alt { cond: Cond::True, syms: vec![x(c(c2)), tt(b'q')] }],
+                1 => vec![Alt { cond: Cond::True, syms: vec![x(c(c1)), tt(b'p'), x(c(c2))] }],
+                _ => vec![Alt { cond: Cond::True, syms: vec![tt(b'p'), x(c(c1))] }, Alt { cond: Cond::True, syms: vec![tt(b'p'), x(c(c2)), tt(b'q')] }],
+            };
+            for sub in subsets.iter() {
+                let alts: Vec<Alt> = sub.iter().map(|i| menu[*i].clone()).collect();
+                let uses_y = sub.contains(&4);
+                let mut nts = vec![top.clone(), alts];
+                if uses_y {
+                    nts.push(y_alts.clone());
+                }
+                let bnf = Bnf { nts };
+                let name: &'static str = Box::leak(format!("genp-{n}").into_boxed_str());
+                n += 1;
+                let lark = print(&["start", "x", "y"], &bnf);
+                out.push(PGram { name, lark, bnf });
+            }
+        }
+    }
+    // left-recursive counting: l::p -> l::(p+1) "a" while p < k | "b"
+    for k in 1..=3u64 {
+        let l = vec![
+            Alt { cond: Cond::Cmp(Cmp::Lt, 0, 64, k), syms: vec![Sym::N(1, PExpr::Incr(0, 64)), tt(b'a')] },
+            Alt { cond: Cond::True, syms: vec![tt(b'b')] },
+        ];
+        let bnf = Bnf { nts: vec![vec![Alt { cond: Cond::True, syms: vec![Sym::N(1, c(0)), tt(b'!')] }], l] };
+        let name: &'static str = Box::leak(format!("genp-lrec-{k}").into_boxed_str());
+        out.push(PGram { name, lark: print(&["start", "l"], &bnf), bnf });
+    }
+    out
+}
+
 pub fn parametric_grammars() -> Vec<PGram> {
     let mut out = vec![];
     let start_alt = |n: usize, p: u64| vec![Alt { cond: Cond::True, syms: vec![Sym::N(n, PExpr::Const(p))] }];
